@@ -119,7 +119,7 @@ impl Check for C09 {
         proptest::strategy::Union::new(vec![gcase_strategy(p, false), gcase_strategy(q, false)]).boxed()
     }
     fn cases(&self, tier: Tier) -> u32 {
-        tier.pick(4000, 80000)
+        tier.pick(16000, 250000)
     }
     fn run(&self, case: &GCase, st: &mut Stats) -> Verdict {
         let ig = IGrammar::from(&case.grammar);
@@ -199,7 +199,7 @@ impl Check for C10 {
         proptest::strategy::Union::new(vec![gcase_strategy(p, false), gcase_strategy(q, false), gcase_strategy(r, false)]).boxed()
     }
     fn cases(&self, tier: Tier) -> u32 {
-        tier.pick(5000, 100000)
+        tier.pick(80000, 1000000)
     }
     fn run(&self, case: &GCase, st: &mut Stats) -> Verdict {
         let text = case.grammar.print();
@@ -313,7 +313,7 @@ impl Check for C11 {
         proptest::strategy::Union::new_weighted(vec![(3, gcase_strategy(p, false)), (1, gcase_strategy(q, false))]).boxed()
     }
     fn cases(&self, tier: Tier) -> u32 {
-        tier.pick(10000, 200000)
+        tier.pick(300000, 3000000)
     }
     fn run(&self, case: &GCase, st: &mut Stats) -> Verdict {
         let Some(cfg) = cfg_from_grammar(&case.grammar) else { return Verdict::Skip("not plain".into()) };
@@ -409,7 +409,7 @@ impl Check for C12 {
         proptest::strategy::Union::new(vec![gcase_strategy(p, true), gcase_strategy(q, true)]).boxed()
     }
     fn cases(&self, tier: Tier) -> u32 {
-        tier.pick(6000, 100000)
+        tier.pick(48000, 600000)
     }
     fn run(&self, case: &GCase, st: &mut Stats) -> Verdict {
         let text = case.grammar.print();
